@@ -28,7 +28,7 @@ head = f"""# Seeded changes and what the checks make of them
 Each directory holds `patch.diff` (apply with `git -C /repo apply`), the author's demonstration and `meta.json`.
 All {n} were confirmed in a scratch worktree (demo passes on the unchanged tree; with the patch the whole existing suite still passes and the demo fails).
 `RESULTS.json` is written by `tools/run_seeded.py` (apply, run the property's quick check, undo): {det} of {len(res)} detected, {inp} with a concrete failing input in the replay.
-Rounds: 1 = A,B; 2 = C,D; 3 = E,F; 4 = G,H; 5 = I,J; 6 = K,L (what each round led to is in DESIGN.md section 10).
+Rounds: 1 = A,B; 2 = C,D; 3 = E,F; 4 = G,H; 5 = I,J; 6 = K,L; 7 = M,N (what each round led to is in DESIGN.md section 10).
 
 | id | round | change | needs | detected | failing input reported |
 |---|---|---|---|---|---|
